@@ -8,8 +8,9 @@
    "can happen" witnesses and liveness (every request read is answered) are checked too.
 2. spec -> code (method A): TLC prints, per (configuration, peer), the allowed outcomes of every
    X-Forwarded-For value; harness/src/bin/blacklist.rs starts the REAL `humphrey` binary (built from the
-   working tree, without the verif cfg) from generated configuration files - one instance on 127.0.0.1 and one on
-   ::1 per configuration, all four route types, a scripted upstream - and sends every row for every route type,
+   working tree, without the verif cfg) from generated configuration files - per configuration one instance on
+   127.0.0.1, one on ::1 and one on the dual-stack address :: (reached by the IPv4 peers, which it sees in
+   IPv4-mapped form), all four route types, a scripted upstream - and sends every row for every route type,
    cold and cached, from a client socket bound to the peer address; observation = bytes / EOF.
 3. code -> spec (method C direction): random sessions (random lists, peers anywhere in 127/8 and ::1,
    kept-alive connections, X-Forwarded-For lists of up to 4 entries) are logged by the harness and validated
@@ -32,7 +33,7 @@ import vlib
 from vlib import Ctx, run_tlc, build_harness, run_bin, parse_jsonl, SPEC
 
 D = os.path.join(SPEC, "server")
-HIST = ["ForbiddenTrustsXff", "XffUntrimmed"]
+HIST = ["ForbiddenTrustsXff", "XffUntrimmed", "MappedPeerUnmatched"]
 MUTANTS = ["CacheBeforeBlacklist", "ProxyUnchecked", "RedirectUnchecked", "OnlyProxiesChecked", "NoConnCondition",
            "IgnoresXff", "BlockSkipsHandlerCheck"]
 WITNESSES = ["NoCachedAnswer", "NoDrop", "NoForwarded403", "NoLenientCase"]
@@ -40,6 +41,19 @@ ACTIONS = ["Cli_Connect", "Srv_VerifyConnection", "Cli_SeesDrop", "Cli_Request",
            "Srv_File_Blacklist", "Srv_Dir_Blacklist", "Srv_Redirect_Blacklist", "Srv_Proxy_Blacklist",
            "Srv_File_CacheCheck", "Srv_Dir_CacheCheck", "Srv_InnerFile", "Srv_Redirect_Serve", "Srv_Proxy_Upstream",
            "Srv_Respond", "Cli_Close"]
+
+
+_JTMP = [None]
+
+
+def tlc(*a, **kw):
+    """vlib.run_tlc with the JVM's temp dir inside /verif/.work (TLC unpacks its standard modules into
+    java.io.tmpdir and leaves an empty directory per run behind; nothing may be left in /tmp)."""
+    if _JTMP[0]:
+        env = dict(kw.get("env") or {})
+        env["JAVA_TOOL_OPTIONS"] = "-Djava.io.tmpdir=" + _JTMP[0]
+        kw["env"] = env
+    return run_tlc(*a, **kw)
 
 
 def build_server():
@@ -99,15 +113,15 @@ def vector_case(m):
                      "rows": [{"p": m["p"], "es": m["es"], "exp": m["exp"],
                                "m": {rt: m.get("model", "") for rt in ("file", "directory", "proxy", "redirect")},
                                "dev": {d: {rt: v for rt in ("file", "directory", "proxy", "redirect")} for d, v in m.get("dev", {}).items()}}]},
-            "route": m.get("rt"), "warm_target": m.get("warm"), "x_forwarded_for": m.get("xff_header"),
+            "server_address": m.get("listen"), "route": m.get("rt"), "warm_target": m.get("warm"), "x_forwarded_for": m.get("xff_header"),
             "allowed_by_spec": m["exp"], "observed": m["got"], "model_of_repaired_code": m.get("model"),
             "single_deviation_predictions": m.get("dev"), "detail": m.get("detail")}
 
 
 def describe(m):
-    return ("mode=%s list=%s cache=%s peer=%s X-Forwarded-For=%r route=%s%s: allowed %s, observed %s" % (
-        m["mode"], m["list"], m["cache"], m["peer"], m.get("xff_header"), m.get("rt"), " (cached target)" if m.get("warm") else "",
-        m["exp"], m["got"]))
+    return ("listen=%s mode=%s list=%s cache=%s peer=%s X-Forwarded-For=%r route=%s%s: allowed %s, observed %s" % (
+        m.get("listen", "?"), m["mode"], m["list"], m["cache"], m["peer"], m.get("xff_header"), m.get("rt"),
+        " (cached target)" if m.get("warm") else "", m["exp"], m["got"]))
 
 
 def attribute(ctx, mismatches, total, source):
@@ -143,14 +157,15 @@ def attribute(ctx, mismatches, total, source):
 def trace_case(rec_entry):
     r = rec_entry["rec"]
     es = [{"a": e["a"], "sp": e["sp"]} for e in r["es"]]
-    return {"mode": r["mode"], "list": r["list"], "cache": r["cache"], "peer": r["peer"], "p": r["present"], "es": es,
+    return {"listen": "::" if r.get("dual") else ("::1" if ":" in r["peer"] else "127.0.0.1"),
+            "mode": r["mode"], "list": r["list"], "cache": r["cache"], "peer": r["peer"], "p": r["present"], "es": es,
             "exp": rec_entry.get("allowed", []), "got": r["res"], "rt": r["rt"], "warm": r.get("fromCache"),
             "xff_header": xff_text({"p": r["present"], "es": es}), "model": "", "dev": {rec_entry["dev"]: r["res"]} if rec_entry.get("dev") else {},
             "detail": "trace line %s, request %s on its connection, uri %s" % (rec_entry.get("line"), r["n"], r["uri"])}
 
 
 def validate_trace(ctx, path, label, timeout=1500):
-    t = run_tlc("Trace_Blacklist.tla", "Trace_Blacklist.cfg", D, workers=1, env={"TRACE": path}, timeout=timeout,
+    t = tlc("Trace_Blacklist.tla", "Trace_Blacklist.cfg", D, workers=1, env={"TRACE": path}, timeout=timeout,
                 work_id="c19", deque=True, heap="6g")
     summ = [x for x in t.prints if isinstance(x, dict) and "records" in x]
     if not summ:
@@ -180,6 +195,8 @@ def run(tier, replay):
     blbin = os.path.join(bindir, "blacklist")
     server = build_server()
     work = os.path.join(vlib.workdir("C19"), "run-%d" % os.getpid())
+    _JTMP[0] = os.path.join(work, "jtmp")
+    os.makedirs(_JTMP[0], exist_ok=True)
     try:
         if replay:
             return run_replay_file(ctx, blbin, server, work, replay)
@@ -201,29 +218,42 @@ def check(ctx, thorough, blbin, server, work):
     ctx.add_part("environment", **probe)
     if not probe["ipv6_loopback"]:
         ctx.assumptions.append("environment gap: ::1 not available, the IPv6 rows were skipped")
+    if not probe["dual_stack"]:
+        ctx.assumptions.append("environment gap: no dual-stack listener (bindv6only?), the rows for `address \"::\"` were skipped")
 
     # ---- 1. model checking ----------------------------------------------------------------------
     main_cfg = "MC_Blacklist_thorough.cfg" if thorough else "MC_Blacklist_quick.cfg"
+    # quick: the three historical deviations and four of the mutants; thorough: all of them
+    devs = HIST + (MUTANTS if thorough else ["CacheBeforeBlacklist", "ProxyUnchecked", "NoConnCondition", "IgnoresXff"])
+    wits = WITNESSES if thorough else ["NoCachedAnswer", "NoForwarded403"]
     jobs = {}
     with concurrent.futures.ThreadPoolExecutor(max_workers=4) as ex:
-        jobs["main"] = ex.submit(run_tlc, "MC_Blacklist.tla", main_cfg, D, workers=6 if thorough else 4, coverage=True,
+        jobs["main"] = ex.submit(tlc, "MC_Blacklist.tla", main_cfg, D, workers=6 if thorough else 4, coverage=True,
                                  timeout=2400, work_id="c19", heap="8g" if thorough else "4g")
-        for d in HIST + MUTANTS:
-            jobs["dev_" + d] = ex.submit(run_tlc, "MC_Blacklist.tla", "MC_Blacklist_dev_%s.cfg" % d, D, workers=1, timeout=600,
+        for d in devs:
+            jobs["dev_" + d] = ex.submit(tlc, "MC_Blacklist.tla", "MC_Blacklist_dev_%s.cfg" % d, D, workers=1, timeout=600,
                                          work_id="c19", heap="1g")
-        for w in WITNESSES:
-            jobs["wit_" + w] = ex.submit(run_tlc, "MC_Blacklist.tla", "MC_Blacklist_wit_%s.cfg" % w, D, workers=1, timeout=600,
+        for w in wits:
+            jobs["wit_" + w] = ex.submit(tlc, "MC_Blacklist.tla", "MC_Blacklist_wit_%s.cfg" % w, D, workers=1, timeout=600,
                                          work_id="c19", heap="1g")
-        jobs["conc"] = ex.submit(run_tlc, "MC_Blacklist.tla", "MC_Blacklist_conc.cfg" if thorough else "MC_Blacklist_conc_quick.cfg", D,
+        jobs["conc"] = ex.submit(tlc, "MC_Blacklist.tla", "MC_Blacklist_conc.cfg" if thorough else "MC_Blacklist_conc_quick.cfg", D,
                                  workers=3, coverage=True, timeout=1800, work_id="c19", heap="4g")
-        jobs["conc_dev"] = ex.submit(run_tlc, "MC_Blacklist.tla", "MC_Blacklist_conc_dev.cfg", D, workers=1, timeout=600,
-                                     work_id="c19", heap="2g")
-        jobs["live"] = ex.submit(run_tlc, "MC_Blacklist.tla", "MC_Blacklist_live.cfg", D, workers=1, timeout=900, work_id="c19", heap="2g")
+        if thorough:
+            jobs["conc_dev"] = ex.submit(tlc, "MC_Blacklist.tla", "MC_Blacklist_conc_dev.cfg", D, workers=1, timeout=900,
+                                         work_id="c19", heap="2g")
+            jobs["main3"] = ex.submit(tlc, "MC_Blacklist.tla", "MC_Blacklist_thorough3.cfg", D, workers=6, coverage=True,
+                                      timeout=2400, work_id="c19", heap="8g")
+        jobs["live"] = ex.submit(tlc, "MC_Blacklist.tla", "MC_Blacklist_live.cfg", D, workers=1, timeout=900, work_id="c19", heap="2g")
         res = {k: f.result() for k, f in jobs.items()}
     r = res["main"]
     ctx.add_tlc("decision-point model, Dev={}, one connection (%s)" % main_cfg, r)
     ctx.require_tlc_ok("MC_Blacklist", r)
     require_taken("MC_Blacklist", r, ACTIONS)
+    if thorough:
+        r = res["main3"]
+        ctx.add_tlc("decision-point model, Dev={}, X-Forwarded-For lists of up to 3 entries (MC_Blacklist_thorough3.cfg)", r)
+        ctx.require_tlc_ok("MC_Blacklist_thorough3", r)
+        require_taken("MC_Blacklist_thorough3", r, ACTIONS)
     r = res["conc"]
     ctx.add_tlc("two concurrent connections sharing the cache, Dev={}", r)
     ctx.require_tlc_ok("MC_Blacklist_conc", r)
@@ -231,16 +261,17 @@ def check(ctx, thorough, blbin, server, work):
     r = res["live"]
     ctx.add_tlc("liveness: admission decided, every request read is answered (weak fairness on the server)", r)
     ctx.require_tlc_ok("MC_Blacklist_live", r)
-    for d in HIST + MUTANTS:
+    for d in devs:
         r = res["dev_" + d]
         ctx.add_tlc("sensitivity: Dev={%s} must violate Inv_Decide" % d, r)
         if r.violation != "invariant":
             raise vlib.ToolError("model lost sensitivity: Dev={%s} no longer violates an invariant" % d)
-    r = res["conc_dev"]
-    ctx.add_tlc("sensitivity: Dev={CacheBeforeBlacklist} with two connections (one warms the cache, the listed one reads it)", r)
-    if r.violation != "invariant":
-        raise vlib.ToolError("model lost sensitivity: concurrent CacheBeforeBlacklist no longer violates Inv_Decide")
-    for w in WITNESSES:
+    if thorough:
+        r = res["conc_dev"]
+        ctx.add_tlc("sensitivity: Dev={CacheBeforeBlacklist} with two connections (one warms the cache, the listed one reads it)", r)
+        if r.violation != "invariant":
+            raise vlib.ToolError("model lost sensitivity: concurrent CacheBeforeBlacklist no longer violates Inv_Decide")
+    for w in wits:
         r = res["wit_" + w]
         ctx.add_tlc("witness: Wit_%s must be violated (the situation can happen)" % w, r)
         if r.violation != "invariant":
@@ -248,7 +279,7 @@ def check(ctx, thorough, blbin, server, work):
 
     # ---- 2. vectors from TLC replayed on the real server ----------------------------------------
     gcfg = "Gen_Blacklist_thorough.cfg" if thorough else "Gen_Blacklist_quick.cfg"
-    g = run_tlc("MC_Blacklist.tla", gcfg, D, workers=1, timeout=1800, work_id="c19", heap="8g")
+    g = tlc("MC_Blacklist.tla", gcfg, D, workers=1, timeout=1800, work_id="c19", heap="8g")
     if g.violation:
         raise vlib.ToolError("generation failed (%s %s): %s" % (g.violation, g.violated_name, g.out[-1500:]))
     ctx.add_tlc("vector generation %s (GenSound: Model({}) within Decide for every row, route, cached-ness)" % gcfg, g)
